@@ -102,6 +102,21 @@ func makeSourceTree(rng *rand.Rand, root string, shape int, big bool) []string {
 		mk(filepath.Join(d, "sub", "deeper", "z.bin"), sizes[rng.Intn(len(sizes))], rng.Intn(4))
 		mk(filepath.Join(d, "sub", "deeper", "zero"), 0, 0)
 		tops = append(tops, d)
+		// directories whose root holds exactly ONE entry (a file / an empty file / an empty directory)
+		switch rng.Intn(3) {
+		case 0:
+			one := filepath.Join(root, "s", "one-file")
+			mk(filepath.Join(one, "only.bin"), sizes[rng.Intn(len(sizes))], rng.Intn(4))
+			tops = append(tops, one)
+		case 1:
+			one := filepath.Join(root, "s", "one-empty-dir")
+			os.MkdirAll(filepath.Join(one, "nothing-here"), 0755)
+			tops = append(tops, one)
+		case 2:
+			one := filepath.Join(root, "s", "one-empty-file")
+			mk(filepath.Join(one, "zero"), 0, 0)
+			tops = append(tops, one)
+		}
 		if rng.Intn(2) == 0 {
 			p := filepath.Join(root, "s", "solo.dat")
 			mk(p, sizes[rng.Intn(len(sizes))], rng.Intn(4))
@@ -230,6 +245,18 @@ func genFidelity(c *ctx) {
 		fc.chunk = []int{0, 1, 7, 100, 5000}[c.rng.Intn(5)]
 		if fc.big && fc.chunk > 0 && fc.chunk < 100 {
 			fc.chunk = 100 // megabytes in 1-2 byte reads through pipes (and relays) do not finish within the harness deadline
+		}
+		// corner configurations that are always part of the run, whatever the random draw
+		switch i {
+		case 0: // legacy protocol 1, binary upload, 16k chunks of bytes the table escapes (escaped chunk > bufsize)
+			fc.cfg.upload, fc.cfg.binary, fc.cfg.proto, fc.cfg.bufsize, fc.cfg.relays, fc.cfg.tunnel = true, true, 0, "16k", 0, false
+			fc.shape, fc.big, fc.cfg.directory, fc.chunk = 0, true, false, 0
+		case 1: // same over protocol 2
+			fc.cfg.upload, fc.cfg.binary, fc.cfg.proto, fc.cfg.bufsize, fc.cfg.relays, fc.cfg.tunnel = true, true, 2, "16k", 0, false
+			fc.shape, fc.big, fc.cfg.directory, fc.chunk = 0, true, false, 0
+		case 2, 3: // archive mode (protocol 4, no overwrite) with one-entry directories among the sources
+			fc.cfg.upload, fc.cfg.proto, fc.cfg.overwrite, fc.cfg.directory, fc.cfg.relays, fc.cfg.tunnel = i == 2, 4, false, true, 0, false
+			fc.shape, fc.chunk = 1, 0
 		}
 		fc.desc = fmt.Sprintf("%s shape=%d big=%v rechunk=%d seed=%d", describeCfg(fc.cfg), fc.shape, fc.big, fc.chunk, fc.seed)
 		cases[i] = fc
